@@ -5,6 +5,7 @@ import (
 	"runtime/debug"
 
 	"verif/sim"
+	"verif/sim/simsync"
 )
 
 // GenSched draws scheduler parameters for an E2 run.
@@ -65,6 +66,7 @@ func RunE2(c *Case, o *Outcome, prop string, clk *sim.Clock, n int, body func(ta
 			cfg.Replay = []int{}
 		}
 	}
+	simsync.ResetAnnounced()
 	s := sim.NewSched(c.StreamRng("sched"), clk, cfg)
 	panics := make([]string, n)
 	for i := 0; i < n; i++ {
